@@ -26,6 +26,8 @@ def prepare(spec):
     tbs = [ref_lr1.build(g) for g in gs]
     cfg = spec['cfg']
     inputs = []
+    if 'explicit_inputs' in spec:
+        return gs, tbs, [[bytes.fromhex(h) for h in lst] for lst in spec['explicit_inputs']]
     for g, tb in zip(gs, tbs):
         cls = gg.classify(tb)
         if cls in ('rr', 'acc'):
@@ -144,7 +146,8 @@ def parseable(gi, gs, tbs, diags, tdiffs, need_match=True, lr1_only=False):
 def viol(out, g, data, mode, summary, extra_keys=(), **rep):
     rep.update({'grammar': g.to_json(), 'input': data.hex() if data is not None else None, 'mode': mode})
     keys = ([case_key(g, data, mode)] if data is not None else ['input:' + g.key()]) + list(extra_keys)
-    out['viol'].append((keys, ('grammar %s input %r mode %s: ' % (g.text(), data, mode)) + summary, rep))
+    shown = data if data is None or len(data) <= 120 else data[:60] + b'...(%d bytes)...' % len(data) + data[-30:]
+    out['viol'].append((keys, ('grammar %s input %r mode %s: ' % (g.text(), shown, mode)) + summary, rep))
 
 _COPYEV = re.compile(r'C-?\d+;')
 
